@@ -286,8 +286,10 @@ def _rand_str(rng, n):
     return "".join(rng.choice(alpha) for _ in range(n))
 
 
-def gen_leaf(rng, hashable=False):
+def gen_leaf(rng, hashable=False, huge=False):
     r = rng.random()
+    if huge and r < 0.03:
+        return rng.choice(ADV_HUGE)
     if r < 0.08:
         return rng.choice([None, True, False])
     if r < 0.22:
@@ -305,27 +307,27 @@ def gen_leaf(rng, hashable=False):
     return Pair(rng.choice(ADV_INT), rng.choice(ADV_STR))
 
 
-def gen_value(rng, depth=3, hashable=False):
-    """recursive generator over the C09 value universe"""
+def gen_value(rng, depth=3, hashable=False, huge=False):
+    """recursive generator over the C09 value universe; huge: also integers beyond the int -> str conversion limit"""
     if depth <= 0 or rng.random() < 0.35:
-        return gen_leaf(rng, hashable)
+        return gen_leaf(rng, hashable, huge)
     n = rng.choice([0, 0, 1, 2, 3])
     kind = rng.choice(["tuple", "frozenset", "pair", "triple"] if hashable else
                       ["tuple", "list", "set", "frozenset", "dict", "rec", "pair", "triple", "point"])
     if kind == "tuple":
-        return tuple(gen_value(rng, depth - 1, hashable) for _ in range(n))
+        return tuple(gen_value(rng, depth - 1, hashable, huge) for _ in range(n))
     if kind == "list":
-        return [gen_value(rng, depth - 1) for _ in range(n)]
+        return [gen_value(rng, depth - 1, False, huge) for _ in range(n)]
     if kind == "set":
-        return {gen_value(rng, depth - 1, True) for _ in range(n)}
+        return {gen_value(rng, depth - 1, True, huge) for _ in range(n)}
     if kind == "frozenset":
-        return frozenset(gen_value(rng, depth - 1, True) for _ in range(n))
+        return frozenset(gen_value(rng, depth - 1, True, huge) for _ in range(n))
     if kind == "dict":
-        return {gen_value(rng, depth - 1, True): gen_value(rng, depth - 1) for _ in range(n)}
+        return {gen_value(rng, depth - 1, True, huge): gen_value(rng, depth - 1, False, huge) for _ in range(n)}
     if kind == "rec":
-        return Rec(rng.choice(ADV_STR), [gen_value(rng, depth - 1) for _ in range(n)], gen_value(rng, depth - 1))
+        return Rec(rng.choice(ADV_STR), [gen_value(rng, depth - 1, False, huge) for _ in range(n)], gen_value(rng, depth - 1, False, huge))
     if kind == "pair":
-        return Pair(gen_value(rng, depth - 1, hashable), gen_value(rng, depth - 1, hashable))
+        return Pair(gen_value(rng, depth - 1, hashable, huge), gen_value(rng, depth - 1, hashable, huge))
     if kind == "triple":
         return Triple(rng.choice(ADV_INT), rng.choice(ADV_STR), rng.choice(ADV_BYTES))
     return Point(rng.choice(ADV_INT), rng.choice(ADV_FLOAT[:6]))
@@ -363,6 +365,82 @@ def gen_boxed(rng):
     return cls(p)
 
 
+import sys as _sys
+from contextlib import contextmanager
+
+
+@contextmanager
+def no_int_str_limit():
+    """the harness' OWN conversions between ints and decimal text (messages, replay files, the protocol) must not trip over
+    CPython's limit on int <-> str conversion; the limit is lifted only around such a conversion (synchronous, no cashews
+    code runs inside) so that the code under test keeps meeting the interpreter's default"""
+    old = _sys.get_int_max_str_digits()
+    _sys.set_int_max_str_digits(0)
+    try:
+        yield
+    finally:
+        _sys.set_int_max_str_digits(old)
+
+
+def rp(v) -> str:
+    """repr(v) that also works for values containing integers beyond the int -> str limit"""
+    try:
+        return repr(v)
+    except ValueError:
+        with no_int_str_limit():
+            return repr(v)
+
+
+class RP:
+    """f"{RP(v)!r}": rp(v) with very long runs of digits abbreviated (for messages, not for replay files)"""
+
+    def __init__(self, v):
+        self.v = v
+
+    def __repr__(self):
+        import re
+        return re.sub(r"\d{60,}", lambda m: f"{m[0][:4]}...<{len(m[0])} digits>...{m[0][-4:]}", rp(self.v))
+
+
+# integers whose decimal text is longer than sys.get_int_max_str_digits() (4300): pickle stores them in binary
+ADV_HUGE = [10 ** 5000, -(10 ** 4400), 2 ** 20000 + 1]
+HUGE = 10 ** 4300
+
+
+def has_huge_int(v) -> bool:
+    if type(v) is int:
+        return abs(v) >= HUGE
+    if isinstance(v, dict):
+        return any(has_huge_int(k) or has_huge_int(x) for k, x in v.items())
+    if isinstance(v, (list, tuple, set, frozenset)):
+        return any(has_huge_int(x) for x in v)
+    if dataclasses.is_dataclass(v) and not isinstance(v, type):
+        return any(has_huge_int(getattr(v, f.name)) for f in dataclasses.fields(v))
+    return False
+
+
+MUTATION_MARK = "<mutated by the caller after the write>"
+
+
+def mutate_top(v) -> bool:
+    """the CALLER changes its own object at the top level after handing it to set / set_many (never anything the cache
+    returned, never a nested object: the store's snapshot is shallow by design).  True when v is mutable and was changed."""
+    if type(v) is list:
+        v.append(MUTATION_MARK)
+    elif type(v) is dict:
+        v[MUTATION_MARK] = 1
+    elif type(v) is set:
+        v.add(MUTATION_MARK)
+    elif type(v) is Rec:
+        v.name = v.name + MUTATION_MARK
+        v.extra = MUTATION_MARK
+    elif isinstance(v, Boxed):
+        v.payload = v.payload + MUTATION_MARK.encode()
+    else:
+        return False
+    return True
+
+
 def canon(v):
     """deep, type-tagged canonical form: equal canon <=> equal value of the same type (also inside containers);
     NaN is equal to NaN here, 0.0 differs from -0.0, dict/set order is ignored"""
@@ -378,7 +456,7 @@ def canon(v):
         return [tn, sorted((canon(x) for x in v), key=json.dumps)]
     if isinstance(v, dict):
         return [tn, sorted(([canon(k), canon(x)] for k, x in v.items()), key=json.dumps)]
-    return [tn, repr(v)]
+    return [tn, rp(v)]
 
 
 def canon_s(v) -> str:
@@ -446,7 +524,14 @@ class Conf:
                 kw["pickle_type"] = self.pickle_type
             backend = cache.setup("mem://", **kw)
         ser = getattr(backend, "_serializer", None)
-        if ser is None or not hasattr(ser, "set_pickler") or not hasattr(ser, "_pickler"):
+        if ser is None:
+            # the backend was built WITHOUT a serializer (nothing encodes, signs, verifies or decodes): not a harness
+            # problem but an observable of the code under test - the run goes on uninstrumented, and whatever the missing
+            # serializer breaks (custom pairs not used, stored forms, unverified reads) is judged like anything else
+            rec = Recorder(_NoPickler())
+            rec.installed = False
+            return cache, backend, rec
+        if not hasattr(ser, "set_pickler") or not hasattr(ser, "_pickler"):
             raise HarnessError("cannot reach the backend's serializer to install the instrumented pickler")
         rec = Recorder(ser._pickler)
         ser.set_pickler(rec)
@@ -527,8 +612,23 @@ def REG_FIELD() -> str:
     return _REG
 
 
+class _NoPickler:
+    """stands for the pickler of a backend that has no serializer: never called"""
+    UnpicklingError = ()
+    PickleError = ()
+
+    @staticmethod
+    def loads(value):
+        return value
+
+    @staticmethod
+    def dumps(value):
+        return value
+
+
 class Recorder:
     """instrumented pickler: delegates to the pickler `get_serializer` chose, records every call"""
+    installed = True
 
     def __init__(self, inner):
         self.inner = inner
@@ -579,9 +679,9 @@ class Ids:
 
 def show_val(v, ids: Ids) -> str:
     if type(v) is int:
-        return f"i:{v}"
+        return "i:" + rp(v)
     if isinstance(v, int) and not isinstance(v, bool):
-        return f"i:{int(v)}"
+        return "i:" + rp(int(v))
     if isinstance(v, bytes):
         return f"b:{bytes(v).hex()}"
     tag = klass_field(type(v))
